@@ -147,6 +147,16 @@ func allocStores(a ssa.Value) []ssa.Value {
 		if st, ok := r.(*ssa.Store); ok && st.Addr == a {
 			out = append(out, st.Val)
 		}
+		// the cell is captured by a closure: what the closure (and closures nested in it) store into it
+		if mc, ok := r.(*ssa.MakeClosure); ok {
+			if fn, ok := mc.Fn.(*ssa.Function); ok {
+				for i, b := range mc.Bindings {
+					if b == a && i < len(fn.FreeVars) {
+						out = append(out, allocStores(fn.FreeVars[i])...)
+					}
+				}
+			}
+		}
 	}
 	return out
 }
